@@ -36,6 +36,9 @@ func (w *World) opTable() []opFn {
 	if p.Probe != "" {
 		ops = append(ops, opFn{"probe-" + p.Probe, 10, func() bool { return w.wantProbe == "" }, func() { w.wantProbe = p.Probe }})
 	}
+	if p.Ranges {
+		ops = append(ops, opFn{"add-range", 4, func() bool { return len(w.rangeApps()) > 0 }, w.opAddRange})
+	}
 	if p.Hostile {
 		ops = append(ops, opFn{"hostile-pod", 14, func() bool { return w.wantProbe == "" }, w.opHostilePod})
 		ops = append(ops, opFn{"hostile-http", 8, func() bool { return w.wantProbe == "" }, w.opHostileHTTP})
@@ -279,6 +282,7 @@ func (w *World) createPod(a *App, name string) {
 	p.App = a
 	p.Key = a.keyOf(name)
 	p.Index = idx
+	p.Ranges = append([][]string(nil), a.Ranges...)
 	w.oracleOnPodCreated(p)
 }
 
@@ -608,4 +612,51 @@ func (w *World) opReserveFip() {
 		"metadata": map[string]interface{}{"name": ip, "labels": map[string]interface{}{"reserved": ""}},
 		"spec":     map[string]interface{}{"key": "admin-reserved", "attribute": "", "policy": 2, "updateTime": nil}})
 	w.S.Stat("admin.reserve")
+}
+
+// rangeApps: workloads whose pods may request IP ranges.
+func (w *World) rangeApps() []*App {
+	var out []*App
+	for _, a := range w.liveApps() {
+		if !(a.Kind == "dp" && a.effPolicy() != "") && a.Kind != "foo" {
+			out = append(out, a)
+		}
+	}
+	return out
+}
+
+// opAddRange changes the ranges future pods of a workload request (a template update): one more pairwise-disjoint
+// list is appended. Identities that still hold IPs from earlier incarnations then own some ranges and not others.
+func (w *World) opAddRange() {
+	a := pick(w.C, w.rangeApps())
+	used := map[string]bool{}
+	for _, l := range a.Ranges {
+		for _, ip := range l {
+			used[ip] = true
+		}
+	}
+	var ips []string
+	for ip := range w.confVers[len(w.confVers)-1] {
+		if !used[ip] {
+			ips = append(ips, ip)
+		}
+	}
+	sort.Strings(ips)
+	if len(ips) == 0 || len(a.Ranges) >= 3 {
+		return
+	}
+	list := []string{pick(w.C, ips)}
+	if w.C.Prob(1, 2) && len(ips) > 1 {
+		if x := pick(w.C, ips); x != list[0] {
+			list = append(list, x)
+		}
+	}
+	a.Ranges = append(append([][]string(nil), a.Ranges...), list)
+	// the rolling update of the template re-creates the pods: delete one live pod so that its successor asks for the new ranges
+	for _, p := range w.podsOf(a) {
+		if p.live() {
+			w.deletePod(p, "template-changed")
+			break
+		}
+	}
 }
